@@ -23,6 +23,9 @@ pub enum RecvOp {
 pub struct QueueCase {
     /// per pusher: number of yields before each push (ids are pusher*100 + k)
     pub pushers: Vec<Vec<u8>>,
+    /// per pusher: virtual milliseconds to sleep before each push (cycled; empty = none)
+    #[serde(default)]
+    pub sleeps: Vec<Vec<u16>>,
     /// per receiver: operation list (cycled until everything sent has been received)
     pub receivers: Vec<Vec<RecvOp>>,
     /// unblock() calls issued by main, each after this many yields (C17)
@@ -145,8 +148,15 @@ pub fn run_queue_case(prop: &'static str, case: &QueueCase) -> Verdict {
         }
         for (pi, yields) in c.pushers.iter().cloned().enumerate() {
             let (q, sh) = (q.clone(), sh.clone());
+            let sleeps: Vec<u16> = c.sleeps.get(pi).cloned().unwrap_or_default();
             handles.push(shuttle::thread::spawn(move || {
                 for (k, y) in yields.iter().enumerate() {
+                    if !sleeps.is_empty() {
+                        let ms = sleeps[k % sleeps.len()];
+                        if ms > 0 {
+                            rt::thread::sleep(Duration::from_millis(ms as u64));
+                        }
+                    }
                     for _ in 0..*y {
                         rt::thread::yield_now();
                     }
@@ -291,7 +301,7 @@ pub fn run_queue_case(prop: &'static str, case: &QueueCase) -> Verdict {
             if *el + 1_000_000 < t_ns {
                 return fail(format!("{}/queue/recv_timeout-too-early", prop), format!("recv_timeout({} ms) returned empty-handed after only {} ns of virtual time", ms, el));
             }
-            if timed_receivers == 1 && *el > 2 * t_ns {
+            if timed_receivers == 1 && case.sleeps.is_empty() && *el > 2 * t_ns {
                 return fail(format!("{}/queue/recv_timeout-too-late", prop), format!("recv_timeout({} ms) returned empty-handed after {} ns of virtual time", ms, el));
             }
         }
@@ -334,7 +344,7 @@ pub fn c07_queue_strategy() -> BoxedStrategy<QueueCase> {
             let can_hold = all_recv && total <= receivers.len();
             (Just((pushers, receivers, tape)), if can_hold { proptest::bool::weighted(0.7).boxed() } else { Just(false).boxed() })
         })
-        .prop_map(|((pushers, receivers, tape), hold)| QueueCase { pushers, receivers, unblocks: vec![], counting: false, hold, tape })
+        .prop_map(|((pushers, receivers, tape), hold)| QueueCase { pushers, sleeps: vec![], receivers, unblocks: vec![], counting: false, hold, tape })
         .boxed()
 }
 
@@ -350,7 +360,7 @@ pub fn c07_hold_strategy() -> BoxedStrategy<QueueCase> {
                 total += p.len();
             }
             pushers.retain(|p| !p.is_empty());
-            QueueCase { pushers, receivers: vec![vec![RecvOp::Recv]; c], unblocks: vec![], counting: false, hold: true, tape }
+            QueueCase { pushers, sleeps: vec![], receivers: vec![vec![RecvOp::Recv]; c], unblocks: vec![], counting: false, hold: true, tape }
         })
         .boxed()
 }
@@ -360,14 +370,24 @@ pub fn c17_queue_strategy() -> BoxedStrategy<QueueCase> {
         // (a) counting: recv() only, u generated unblocks, topped up to one per receiver
         3 => (proptest::collection::vec(proptest::collection::vec(0u8..3, 0..=3), 1..=2), 1usize..=4, proptest::collection::vec(0u8..6, 0..=4), tape_strategy(200)).prop_map(|(pushers, c, mut unblocks, tape)| {
             unblocks.truncate(c);
-            QueueCase { pushers, receivers: vec![vec![RecvOp::Recv]; c], unblocks, counting: true, hold: false, tape }
+            QueueCase { pushers, sleeps: vec![], receivers: vec![vec![RecvOp::Recv]; c], unblocks, counting: true, hold: false, tape }
         }),
         // (b) mixed operations with unblocks in flight
         2 => (proptest::collection::vec(proptest::collection::vec(0u8..3, 0..=3), 1..=2), proptest::collection::vec(proptest::collection::vec(recv_op(), 1..4), 1..=3), proptest::collection::vec(0u8..6, 1..=3), tape_strategy(200))
-            .prop_map(|(pushers, receivers, unblocks, tape)| QueueCase { pushers, receivers, unblocks, counting: false, hold: false, tape }),
+            .prop_map(|(pushers, receivers, unblocks, tape)| QueueCase { pushers, sleeps: vec![], receivers, unblocks, counting: false, hold: false, tape }),
         // (c) timed receivers only (bounds under virtual time)
         2 => (proptest::collection::vec(proptest::collection::vec(0u8..4, 0..=3), 1..=2), proptest::collection::vec(proptest::collection::vec(prop_oneof![3 => proptest::sample::select(vec![0u64, 1, 5, 20, 100]).prop_map(RecvOp::RecvTimeout), 1 => Just(RecvOp::TryRecv)], 1..3), 1..=3), tape_strategy(200))
-            .prop_map(|(pushers, receivers, tape)| QueueCase { pushers, receivers, unblocks: vec![], counting: false, hold: false, tape }),
+            .prop_map(|(pushers, receivers, tape)| QueueCase { pushers, sleeps: vec![], receivers, unblocks: vec![], counting: false, hold: false, tape }),
+        // (d) one timed receiver, pollers that steal, pushes spread over virtual time: every wake-up
+        // that finds the queue empty again must leave the rest of the timeout intact
+        2 => (proptest::collection::vec(proptest::collection::vec(0u8..2, 1..=4), 1..=2), proptest::collection::vec(proptest::collection::vec(proptest::sample::select(vec![0u16, 2, 3, 7, 13, 30, 45, 60]), 1..=4), 2), proptest::sample::select(vec![5u64, 20, 50, 100]), 1usize..=2, tape_strategy(200))
+            .prop_map(|(pushers, sleeps, t, pollers, tape)| {
+                let mut receivers = vec![vec![RecvOp::RecvTimeout(t)]];
+                for _ in 0..pollers {
+                    receivers.push(vec![RecvOp::TryRecv]);
+                }
+                QueueCase { pushers, sleeps, receivers, unblocks: vec![], counting: false, hold: false, tape }
+            }),
     ]
     .boxed()
 }
